@@ -8,7 +8,12 @@
    identity on patterns, so NaN payloads and -0 are ordinary values); a numeric
    conversion of a float is NOT modelled: [eval] returns None on it, so a
    packing that goes through one can never be certified.  time.Time is the pair
-   (instant in ns since the epoch, unbounded; location identity).  User values
+   (instant in ns since the epoch, unbounded; location identity).  The location
+   the process-global variable time.Local points to is AMBIENT STATE, not a
+   constant: [eval], [construct] and [addto] take it as an input ([e_local]),
+   so that a Field built at one moment and encoded at another is modelled with
+   two independent values of it (time.Unix(0, n) is "n in the location
+   time.Local points to at the moment of the call").  User values
    held in interfaces (marshalers, errors, Stringers, reflected values) are
    opaque records carrying exactly the attributes Go's == and
    reflect.DeepEqual depend on. *)
@@ -97,7 +102,7 @@ Record opq := { oty : Z;        (* dynamic type identity *)
 
 Record timev := { tinst : Z; tloc : Z }.
 Definition loc_utc : Z := 0.
-Definition loc_local : Z := 1.
+Definition loc_local : Z := 1.   (* the location time.Local points to when the process starts *)
 
 Inductive val :=
 | VI (z : Z) | VBool (b : bool) | VF64 (b : Z) | VF32 (b : Z)
@@ -135,7 +140,7 @@ Inductive expr :=
 | EStrConv (e : expr)                    (* string(e), e of a ~string type *)
 | EAssert (t : gty) (e : expr)           (* e.(T) *)
 | EUnixNano (e : expr) | ELocation (e : expr)
-| ETimeUnix0 (e : expr)                  (* time.Unix(0, e) *)
+| ETimeUnix0 (e : expr)                  (* time.Unix(0, e): in the location time.Local points to NOW *)
 | ETimeIn (t l : expr)                   (* t.In(l) *)
 | EBefore (a b : expr) | EAfter (a b : expr) | EOr (a b : expr)
 | EIsNil (e : expr) | ENotNil (e : expr)
@@ -143,7 +148,11 @@ Inductive expr :=
 | EStack.                                (* stacktrace.Take(..): environment-dependent text *)
 
 Record env := { e_var : val; e_int : Z; e_str : bytes; e_ifc : val; e_elem : val; e_stack : bytes;
-                e_saddr : Z; e_idx : Z }.   (* identity of the slice a wrapper loop ranges over, current index *)
+                e_saddr : Z; e_idx : Z;     (* identity of the slice a wrapper loop ranges over, current index *)
+                e_local : Z }.              (* AMBIENT state: the location the process-global variable time.Local
+                                               points to AT THE MOMENT the expression is evaluated.  It is not a
+                                               constant: a Field is built at one moment and encoded at another, and
+                                               time.Local may have been re-pointed in between. *)
 
 Definition is_nilv (v : val) : option bool :=
   match v with
@@ -194,7 +203,7 @@ Fixpoint eval (r : env) (e : expr) : option val :=
   | EUnixNano a => match eval r a with Some (VTime t) => Some (VI (wrap NInt64 (tinst t))) | _ => None end
   | ELocation a => match eval r a with Some (VTime t) => Some (VLoc (tloc t)) | _ => None end
   | ETimeUnix0 a => match eval r a with
-                    | Some (VI n) => Some (VTime {| tinst := n; tloc := loc_local |}) | _ => None end
+                    | Some (VI n) => Some (VTime {| tinst := n; tloc := e_local r |}) | _ => None end
   | ETimeIn a l => match eval r a, eval r l with
                    | Some (VTime t), Some (VLoc x) => Some (VTime {| tinst := tinst t; tloc := x |})
                    | _, _ => None end
@@ -265,8 +274,9 @@ Definition bs (s : name) : bytes := s.
 Definition keyv (k : kexpr) (key : bytes) : bytes :=
   match k with KKey => key | KLit s => bs s | KNone => [] end.
 
-Definition env0 (v : val) (stack : bytes) : env :=
-  {| e_var := v; e_int := 0; e_str := []; e_ifc := VNil; e_elem := VNil; e_stack := stack; e_saddr := 0; e_idx := 0 |}.
+Definition env0 (loc : Z) (v : val) (stack : bytes) : env :=
+  {| e_var := v; e_int := 0; e_str := []; e_ifc := VNil; e_elem := VNil; e_stack := stack; e_saddr := 0; e_idx := 0;
+     e_local := loc |}.
 
 Definition opt_eval (r : env) (o : option expr) (dflt : val) : option val :=
   match o with None => Some dflt | Some e => eval r e end.
@@ -297,12 +307,13 @@ Fixpoint run_body (T : tables) (self : name -> bytes -> val -> option field)
       end
   end.
 
-Fixpoint construct (T : tables) (fuel : nat) (stack : bytes) (c : name) (key : bytes) (v : val) : option field :=
+(* [loc]: what time.Local points to while the constructor runs *)
+Fixpoint construct (T : tables) (fuel : nat) (loc : Z) (stack : bytes) (c : name) (key : bytes) (v : val) : option field :=
   match fuel with
   | O => None
   | S n =>
       match find_ctor c (t_ctors T) with
-      | Some ct => run_body T (construct T n stack) (c_body ct) key (env0 v stack)
+      | Some ct => run_body T (construct T n loc stack) (c_body ct) key (env0 loc v stack)
       | None => None
       end
   end.
@@ -310,9 +321,9 @@ Fixpoint construct (T : tables) (fuel : nat) (stack : bytes) (c : name) (key : b
 Definition ctor_fuel : nat := 6.
 
 (* ---------- AddTo ---------- *)
-Definition fenv (f : field) (elem : val) : env :=
+Definition fenv (loc : Z) (f : field) (elem : val) : env :=
   {| e_var := VNil; e_int := f_int f; e_str := f_str f; e_ifc := f_ifc f; e_elem := elem; e_stack := [];
-     e_saddr := 0; e_idx := 0 |}.
+     e_saddr := 0; e_idx := 0; e_local := loc |}.
 Definition field_of_val (v : val) : option field :=
   match v with VFld t k i s x => Some {| f_ty := t; f_key := k; f_int := i; f_str := s; f_ifc := x |} | _ => None end.
 
@@ -335,15 +346,16 @@ Fixpoint oconcati {A B} (f : Z -> A -> option (list B)) (i : Z) (l : list A) : o
   end.
 
 (* iteration i of a wrapper loop over the slice with identity a, whose element i is x *)
-Definition elem_env (a i : Z) (x : val) : env :=
-  {| e_var := VNil; e_int := 0; e_str := []; e_ifc := VNil; e_elem := x; e_stack := []; e_saddr := a; e_idx := i |}.
+Definition elem_env (loc : Z) (a i : Z) (x : val) : env :=
+  {| e_var := VNil; e_int := 0; e_str := []; e_ifc := VNil; e_elem := x; e_stack := []; e_saddr := a; e_idx := i;
+     e_local := loc |}.
 
 (* MarshalLogArray / MarshalLogObject of a zap-internal wrapper type, on the no-error path
    (the recording encoder never fails): what one element of the loop does, then the loop *)
-Definition loop1 (addto : field -> option (list call)) (l : loop) (a i : Z) (x : val) : option (list call) :=
+Definition loop1 (loc : Z) (addto : field -> option (list call)) (l : loop) (a i : Z) (x : val) : option (list call) :=
   match l with
   | LAppend m e | LAppendErr m e =>
-      match eval (elem_env a i x) e with Some v => Some [(m, [], v)] | None => None end
+      match eval (elem_env loc a i x) e with Some v => Some [(m, [], v)] | None => None end
   | LErrs k =>
       match x with
       | VNil => Some []
@@ -353,19 +365,19 @@ Definition loop1 (addto : field -> option (list call)) (l : loop) (a i : Z) (x :
   | LFields =>
       match field_of_val x with Some f => addto f | None => None end
   end.
-Definition run_loop (addto : field -> option (list call)) (l : loop) (a : Z) (xs : list val) : option (list call) :=
-  oconcati (loop1 addto l a) 0 xs.
+Definition run_loop (loc : Z) (addto : field -> option (list call)) (l : loop) (a : Z) (xs : list val) : option (list call) :=
+  oconcati (loop1 loc addto l a) 0 xs.
 
 Definition slice_elems (v : val) : option (Z * list val) :=
   match v with VSlice a l => Some (a, l) | _ => None end.
 
 (* what enc.AddArray / enc.AddObject / arr.AppendObject receive: a zap-internal wrapper is
    run (its loop is zap's code), a user marshaler is delivered as it is *)
-Definition deliver_marshaler (T : tables) (addto : field -> option (list call)) (v : val) : option val :=
+Definition deliver_marshaler (T : tables) (loc : Z) (addto : field -> option (list call)) (v : val) : option val :=
   match v with
   | VWrap w u =>
       match assoc w (t_wrappers T), slice_elems u with
-      | Some l, Some (a, xs) => option_map VCalls (run_loop addto l a xs)
+      | Some l, Some (a, xs) => option_map VCalls (run_loop loc addto l a xs)
       | _, _ => None
       end
   | _ => Some v
@@ -374,15 +386,15 @@ Definition deliver_marshaler (T : tables) (addto : field -> option (list call)) 
 Definition is_marshal_method (m : name) : bool :=
   orb (bytes_eqb m ($"AddArray")) (bytes_eqb m ($"AddObject")).
 
-Fixpoint run_arm (T : tables) (addto : field -> option (list call)) (a : arm) (f : field) : option (list call) :=
-  let r := fenv f VNil in
+Fixpoint run_arm (T : tables) (loc : Z) (addto : field -> option (list call)) (a : arm) (f : field) : option (list call) :=
+  let r := fenv loc f VNil in
   match a with
   | ACall m None => Some [(m, f_key f, VNil)]
   | ACall m (Some e) =>
       match eval r e with
       | Some v =>
           if is_marshal_method m
-          then option_map (fun d => [(m, f_key f, d)]) (deliver_marshaler T addto v)
+          then option_map (fun d => [(m, f_key f, d)]) (deliver_marshaler T loc addto v)
           else Some [(m, f_key f, v)]
       | None => None
       end
@@ -390,7 +402,7 @@ Fixpoint run_arm (T : tables) (addto : field -> option (list call)) (a : arm) (f
       match eval r e with
       | Some (VOpq o) => Some [(($"MarshalLogObject"), [], VOpq o)]
       | Some (VWrap w u) => (* a zap-internal object marshaler inlined: its calls go to enc directly *)
-          match deliver_marshaler T addto (VWrap w u) with Some (VCalls l) => Some l | _ => None end
+          match deliver_marshaler T loc addto (VWrap w u) with Some (VCalls l) => Some l | _ => None end
       | _ => None
       end
   | AStringer e =>
@@ -406,20 +418,21 @@ Fixpoint run_arm (T : tables) (addto : field -> option (list call)) (a : arm) (f
   | ASkip => Some []
   | AIf c a1 a2 =>
       match eval r c with
-      | Some (VBool true) => run_arm T addto a1 f
-      | Some (VBool false) => run_arm T addto a2 f
+      | Some (VBool true) => run_arm T loc addto a1 f
+      | Some (VBool false) => run_arm T loc addto a2 f
       | _ => None
       end
   end.
 
-(* Field.AddTo; None = panic (unknown field type, failed assertion) *)
-Fixpoint addto (T : tables) (fuel : nat) (f : field) : option (list call) :=
+(* Field.AddTo; None = panic (unknown field type, failed assertion).  [loc]: what time.Local points
+   to while the Field is being ENCODED -- in general not what it pointed to when the Field was built *)
+Fixpoint addto (T : tables) (fuel : nat) (loc : Z) (f : field) : option (list call) :=
   match fuel with
   | O => None
   | S n =>
       match rassoc (f_ty f) (t_ftypes T) with
       | Some ft => match assoc ft (t_arms T) with
-                   | Some a => run_arm T (addto T n) a f
+                   | Some a => run_arm T loc (addto T n loc) a f
                    | None => None
                    end
       | None => None
